@@ -191,7 +191,7 @@ func xzCases(c *hx.Ctx, seed int64) []xzCase {
 
 // C01: xz write -> read round trip.
 func C01(c *hx.Ctx) {
-	c.Rule = "cases = (small-scope exhaustive strings over {00,01,ff} and zero-framed words) + (TLC-generated Write/Close histories incl. zero-length writes, double Close and Write after Close) x boundary WriterConfig values (lc/lp/pb corners, DictCap 4096..1 MiB(+8 MiB thorough), BufSize 273..64 KiB, BlockSize 1..2^40, every check, both matchers); each replayed on xz.Writer, call results judged against the contract, sink decoded by xz.Reader; non-trivial = more than one block or chunk, or calls after Close"
+	c.Rule = "cases = (small-scope exhaustive strings over {00,01,ff} and zero-framed words) + (TLC-generated Write/Close histories incl. zero-length writes, double Close and Write after Close) x boundary WriterConfig values (lc/lp/pb corners, DictCap 4096..1 MiB(+8 MiB thorough), BufSize 273..64 KiB, BlockSize 1..2^40, every check, both matchers); each replayed on xz.Writer, call results judged against the contract, sink decoded by xz.Reader; non-trivial = more than one block or chunk, or calls after Close; plus ring-wrap, many-block and near-incompressible families, alternating sink kinds, smallest reader window, Config.tla decision table on Verify and constructors"
 	c.Assumptions = []string{"TLC (CallHist, XzObs)", "payload contents are seeded members of the data classes, not all byte strings"}
 	configTable(c, "xz")
 	cases := xzCases(c, c.Seed)
